@@ -5,32 +5,32 @@ import json, subprocess
 CLAIMED = {
  "C20": dict(
    technique="static analysis: SSA must-lockset (LCK) over pkg/cache + loop-progress, unlink-pairing and must-pass-through (expiry) rules on the SSA CFG",
-   text="Structural necessary conditions decided exhaustively over every access/loop/exit of pkg/cache on each run: items/evictList/currentSize only under LRUCache.mu (writes exclusive, helpers only reachable with the lock), every evict-until-fits loop has an emptiness exit (no operation blocks forever), list/map/size change together, Get returns only through the not-expired edge. Level 'other': the LRU history semantics themselves are runtime-value/history clauses no static argument in reach decides.",
+   text="Structural necessary conditions decided exhaustively over every access/loop/exit of pkg/cache on each run: items/evictList/currentSize only under LRUCache.mu (writes exclusive, helpers only reachable with the lock), every evict-until-fits loop has an emptiness exit (no operation blocks forever), list/map/size change together, Get returns only through the not-expired edge. Level 'other': the LRU history semantics themselves are runtime-value/history clauses no static argument in reach decides. Also: every Lock/RLock of the cache is released on every path to a return.",
    note="Does not cover: conformance to the sequential LRU spec, eviction order, byte accounting values, TTL arithmetic, linearizability. Lockset is receiver-insensitive; container/list mutator table is fixed in the checker. Trusted: go/types, go/ssa.",
    ref="DESIGN.md §3 C20"),
  "C11": dict(
    technique="static analysis: SSA must-lockset over the limiter's captured state, must-pass-through/guard-edge path queries on the admitting closure, header-taint of getClientIP, wiring def-use in cmd/glyph, doc-vs-switch table",
-   text="Structural necessary conditions of per-client rate limiting decided over every site: bucket table and counters only under the limiter mutex with test+decrement in one critical section; next(ctx) only after the decrement; the budget comparison rejects 0 and admits 1 (comparison evaluated at the boundary); the no-budget edge answers 429 and never reaches the body; table keyed by getClientIP(this request); header-derived identity only under trustProxy; declared limiter always appended; documented window spellings have a case. Also: each route receives the limiter constructed by its own rateLimitMiddleware call.",
+   text="Structural necessary conditions of per-client rate limiting decided over every site: bucket table and counters only under the limiter mutex with test+decrement in one critical section; next(ctx) only after the decrement; the budget comparison rejects 0 and admits 1 (comparison evaluated at the boundary); the no-budget edge answers 429 and never reaches the body; table keyed by getClientIP(this request); header-derived identity only under trustProxy; declared limiter always appended; documented window spellings have a case. Also: each route receives the limiter constructed by its own rateLimitMiddleware call. Also: lock-release pairing in pkg/server.",
    note="Does not cover the numeric bound N*(1+T/window), refill arithmetic or unit-conversion values (known deviation: N/hour becomes a bucket of ceil(N/60)), nor behaviour in real time. Trusted: go/types, go/ssa; role-based slot resolution (unique local mutex / map of *clientLimit).",
    ref="DESIGN.md §3 C11"),
  "C06": dict(
    technique="static analysis: def-use wiring of server.Route/ast.Route literals, guard-edge cut path queries (credential-accepted edges) on every auth closure, loop-bound evaluation of the middleware fold, must-lockset over failure trackers, header taint",
-   text="Structural necessary conditions of fail-closed auth decided at every site: each server.Route built from a declared route carries routeMiddlewares(that route); every ast.Route literal keeps .Auth; both dispatchers fold all Middlewares (index range evaluated) before calling the handler; authMiddleware returns nil only for undeclared auth, enables bearer/apikey checking only with a non-empty configured secret/key set and otherwise denyAll; in every credential closure next is unreachable once credential-accepted edges are cut; lock-out test dominates the credential read and rejected credentials are counted; tracker state only under its mutex. Also: the dispatchers never store into the registered server.Route.",
+   text="Structural necessary conditions of fail-closed auth decided at every site: each server.Route built from a declared route carries routeMiddlewares(that route); every ast.Route literal keeps .Auth; both dispatchers fold all Middlewares (index range evaluated) before calling the handler; authMiddleware returns nil only for undeclared auth, enables bearer/apikey checking only with a non-empty configured secret/key set and otherwise denyAll; in every credential closure next is unreachable once credential-accepted edges are cut; lock-out test dominates the credential read and rejected credentials are counted; tracker state only under its mutex. Also: the dispatchers never store into the registered server.Route. Also: lock-release pairing in pkg/server.",
    note="Does not cover JWT semantics, lock-out arithmetic, timing channels. Accept-all placeholders (nil credential set) are reasoned exceptions paired with a call-site rule. Trusted: go/types, go/ssa.",
    ref="DESIGN.md §3 C06"),
  "C16": dict(
    technique="static analysis: SSA must-lockset over the hub/room/connection guard table, ordering (close-after-unlink) and guard-edge path queries, who-may-send enumeration on Connection.send, limit-test boundary evaluation, config def-use",
-   text="Structural necessary conditions of hub/room consistency decided at every site: each guarded field only under its mutex; every close(conn.send) only after the connection left Hub.connections and all rooms; every send on conn.send is in the hub loop, under Room.mu, or behind a closed-state guard (holds the Connection mutex every close holds exclusively, crosses the closed-flag==false edge with the lock held continuously, and never blocks while holding it unless the closer releases the select first); close sites reached through wrapper functions are lifted to the wrapper's callers; a connection records membership only on the room's err==nil edge and forgets a room only with the room-side remove; inserts into Hub.connections/Room.connections are preceded in the same critical section by a len-vs-max test whose len==max outcome cannot reach the insert; NewServer's Config reaches the hub; client-controlled data is never type-asserted unchecked in hub goroutines.",
+   text="Structural necessary conditions of hub/room consistency decided at every site: each guarded field only under its mutex; every close(conn.send) only after the connection left Hub.connections and all rooms; every send on conn.send is in the hub loop, under Room.mu, or behind a closed-state guard (holds the Connection mutex every close holds exclusively, crosses the closed-flag==false edge with the lock held continuously, and never blocks while holding it unless the closer releases the select first); close sites reached through wrapper functions are lifted to the wrapper's callers; a connection records membership only on the room's err==nil edge and forgets a room only with the room-side remove; inserts into Hub.connections/Room.connections are preceded in the same critical section by a len-vs-max test whose len==max outcome cannot reach the insert; NewServer's Config reaches the hub; client-controlled data is never type-asserted unchecked in hub goroutines. Also: a room is created only after a lookup under the same exclusive hold; a connection is registered synchronously before its read pump starts; lock-release pairing.",
    note="Does not cover delivery guarantees, general deadlock freedom (only the blocking-send-under-guard shape), real interleavings. Lockset is receiver-insensitive. Trusted: go/types, go/ssa, the guard table in c16.go.",
    ref="DESIGN.md §3 C16"),
  "C15": dict(
    technique="static analysis: SSA must-lockset over JIT unit/specialisation/stats state, must-pass-through of invalidation entry points to every bytecode store, compiler-freshness (escape) rule over values and type declarations, tier-switch exhaustiveness",
-   text="Structural necessary conditions decided at every site of pkg/jit: unit fields, the units map, specialisation validity and stats only under their mutexes; InvalidateCache/ClearCache/RecordDeoptimization reach an invalidation of every store that holds bytecode for the route; a specialisation is returned only through its IsValid edge; each compilation uses a compiler created in that call and no field/variable/map of the package can hold one; tier switches that select code are total.",
+   text="Structural necessary conditions decided at every site of pkg/jit: unit fields, the units map, specialisation validity and stats only under their mutexes; InvalidateCache/ClearCache/RecordDeoptimization reach an invalidation of every store that holds bytecode for the route; a specialisation is returned only through its IsValid edge; each compilation uses a compiler created in that call and no field/variable/map of the package can hold one; tier switches that select code are total. Also: C03's optimiser rule sets (fact aliasing, gen/kill, exact and order-preserving keys) under C15-R9; an invalidated specialisation is re-validated only with new code; cached bytecode is never written in place; code compiled before an invalidation is published only if the invalidation count is unchanged (epoch); lock-release pairing.",
    note="Does not cover equivalence of tier bytecode (C03), linearizability, recompilation thresholds. Lockset receiver-insensitive. Trusted: go/types, go/ssa, guard table in c15.go.",
    ref="DESIGN.md §3 C15"),
  "C09": dict(
    technique="static analysis: SSA must-lockset + ordering/typestate path queries over interpreter.Future, goroutine free-variable (capture) analysis for async blocks in both engines, await-after-done guard-edge rule",
-   text="Structural necessary conditions decided at every site: Future outcome fields only under Future.mu; every settling write and close(done) is behind the already-resolved test, resolved is set and the outcome written before done closes, done closes once; no blocking channel operation under Future.mu; Await* and the VM's FutureValue readers touch the outcome only after receiving from done; the interpreter's async goroutine captures only a detached Environment; the VM's async goroutine captures no *VM and only values created in execAsync, its first deferred call closes Done and only it writes Result/Error; All stores values at their future's index; Any's shared state is under its mutex. Also: the functions accepted as detaching (Snapshot) return an environment without parent.",
+   text="Structural necessary conditions decided at every site: Future outcome fields only under Future.mu; every settling write and close(done) is behind the already-resolved test, resolved is set and the outcome written before done closes, done closes once; no blocking channel operation under Future.mu; Await* and the VM's FutureValue readers touch the outcome only after receiving from done; the interpreter's async goroutine captures only a detached Environment; the VM's async goroutine captures no *VM and only values created in execAsync, its first deferred call closes Done and only it writes Result/Error; All stores values at their future's index; Any's shared state is under its mutex. Also: the functions accepted as detaching (Snapshot) return an environment without parent. Also: lock-release pairing in the Future code and the VM.",
    note="Does not cover determinism under all schedules, first-settled/first-success as history properties, VM jump relocation inside embedded async bodies. Trusted: go/types, go/ssa.",
    ref="DESIGN.md §3 C09"),
  "C13": dict(
@@ -45,7 +45,7 @@ CLAIMED = {
    ref="DESIGN.md §3 C17"),
  "C14": dict(
    technique="static analysis: typestate/ordering path queries on *sql.Tx (callback error/success edges, deferred recover closures), single-statement rule for BulkInsert, context-key def-use",
-   text="Structural necessary conditions decided for every function that begins a transaction: rollback on the callback's error edge on all paths and no commit there; commit on the success edge; a deferred function that itself calls recover(), rolls back on the recovered edge and re-panics with the recovered value; no commit in a deferred function without its own recover()==nil test; no commit after rollback; each driver's BulkInsert executes at most one statement unless inside a transaction; a *sql.Tx stored in a context is read back, and every executor the ORM invokes on its Database reads that key and calls a *sql.Tx method in the driver ORM.Transaction supports.",
+   text="Structural necessary conditions decided for every function that begins a transaction: rollback on the callback's error edge on all paths and no commit there; commit on the success edge; a deferred function that itself calls recover(), rolls back on the recovered edge and re-panics with the recovered value; no commit in a deferred function without its own recover()==nil test; no commit after rollback; each driver's BulkInsert executes at most one statement unless inside a transaction; a *sql.Tx stored in a context is read back, and every executor the ORM invokes on its Database reads that key and calls a *sql.Tx method in the driver ORM.Transaction supports. Also: ORM.Transaction invokes its callback only inside a transaction of its own.",
    note="Does not cover what the database does on commit/rollback, nor cancelled contexts inside the driver. Trusted: go/types, go/ssa.",
    ref="DESIGN.md §3 C14"),
  "C12": dict(
@@ -60,12 +60,12 @@ CLAIMED = {
    ref="DESIGN.md §3 C04"),
  "C19": dict(
    technique="static analysis: ordering/typestate path queries on the dev-server swap and the library reload manager, guard-edge rules on compile/reload results, must-lockset, must-pass-through in the poller",
-   text="Structural necessary conditions decided at every site: in startServer no failing exit and no missing m.server store after the old server's Shutdown (all fallible steps precede the teardown) and the prepared server is started; reload() is never fatal; in ReloadManager.handleChanges a compile error never reaches Reload/SetState and is reported as failure, Reload installs exactly the compile result, state is restored only after a successful Reload, and compile+install form one critical section under rm.mu; server/connection/hash tables only under their mutexes; the poller hashes every present file on every poll.",
+   text="Structural necessary conditions decided at every site: in startServer no failing exit and no missing m.server store after the old server's Shutdown (all fallible steps precede the teardown) and the prepared server is started; reload() is never fatal; in ReloadManager.handleChanges a compile error never reaches Reload/SetState and is reported as failure, Reload installs exactly the compile result, state is restored only after a successful Reload, and compile+install form one critical section under rm.mu; server/connection/hash tables only under their mutexes; the poller hashes every present file on every poll. Also: success is reported only after the server accepted the program; every change event re-arms the reload timer; error-kind predicates unwrap; no once-built state from reloadable variables; lock-release pairing.",
    note="Does not cover port-release timing, fsnotify/polling and debounce behaviour, request continuity. Trusted: go/types, go/ssa.",
    ref="DESIGN.md §3 C19"),
  "C08": dict(
    technique="static analysis: shared write-set over the request-reachable call graph (CHA), must-lockset over provider stores plus split read-modify-write rule, reference-escape (live record) audit, per-request freshness def-use, who-may-write rule for compiledTypeDefs",
-   text="Structural necessary conditions decided at every site: no request-reachable function of the interpreter writes the shared Interpreter/TypeChecker/ModuleResolver/globalEnv/package state without a lock; each compiled request executes on a VM created in its own closure and each interpreted request in an Environment created in ExecuteRoute; every access to the mock/real provider stores is under the owning mutex and no lookup-unlock-relock-write sequence exists; store methods neither return stored maps nor keep caller maps without copying; compiledTypeDefs is assigned only by setCompiledTypeDefs from setupRoutes and the compiled request path keeps no package-level Once/Pool state. Also: request-time values of mutable or unknown type are not published in a shared sync.Map.",
+   text="Structural necessary conditions decided at every site: no request-reachable function of the interpreter writes the shared Interpreter/TypeChecker/ModuleResolver/globalEnv/package state without a lock; each compiled request executes on a VM created in its own closure and each interpreted request in an Environment created in ExecuteRoute; every access to the mock/real provider stores is under the owning mutex and no lookup-unlock-relock-write sequence exists; store methods neither return stored maps nor keep caller maps without copying; compiledTypeDefs is assigned only by setCompiledTypeDefs from setupRoutes and the compiled request path keeps no package-level Once/Pool state. Also: request-time values of mutable or unknown type are not published in a shared sync.Map. Also: lock-release pairing in the provider mocks and the interpreter.",
    note="Does not cover atomicity of multi-step protocols in user programs, scheduling-dependent outcomes, sharing of nested values inside copied records. Known findings: the evaluation-depth budget and TypeChecker.typeScope are shared between concurrent requests. Trusted: go/types, go/ssa, CHA call graph.",
    ref="DESIGN.md §3 C08"),
  "C05": dict(
@@ -80,7 +80,7 @@ CLAIMED = {
    ref="DESIGN.md §3 C07"),
  "C18": dict(
    technique="static analysis: sibling-table agreement over syntax trees and SSA (formatter symbol/keyword maps, keyword and punctuation arms of both lexers, operand-token sets), lexical-class rule for string scanners, who-may-use rule for bufio.Scanner",
-   text="Structural necessary conditions decided over every table entry: symbolToKeyword and keywordToSymbol are mutual inverses; each expanded keyword lexes to a token kind its symbol can produce and is not a compact keyword; the shared keyword arms of the two lexers have equal key sets and token kinds; punctuation arms and the '/'-disambiguation token set agree between the lexers; every quote-scanning function also handles the escape character; no unchecked default-buffer bufio.Scanner rewrites files.",
+   text="Structural necessary conditions decided over every table entry: symbolToKeyword and keywordToSymbol are mutual inverses; each expanded keyword lexes to a token kind its symbol can produce and is not a compact keyword; the shared keyword arms of the two lexers have equal key sets and token kinds; punctuation arms and the '/'-disambiguation token set agree between the lexers; every quote-scanning function also handles the escape character; no unchecked default-buffer bufio.Scanner rewrites files. Also: no identifier character follows an expanded keyword unseparated (decided by folding the formatter's condition and the lexer's identifier predicate over all bytes); blankness is decided on the trimmed line; expanded keywords must be recognised in context (known finding: they are not; 11/44 example files fail the round trip).",
    note="Does not cover round-trip equality over all sources, idempotence of the formatter, layout. Trusted: go/ast, go/types, go/ssa.",
    ref="DESIGN.md §3 C18"),
  "C10": dict(
